@@ -427,8 +427,8 @@ def obligations():
         for bxs in (0, 1, 2):
             obs.append(Ob('h_diff', {'axs': axs, 'bxs': bxs}, tiers=('thorough',), timeout=1200))
     for i, (axs, bxs) in enumerate(((3, 3), (3, 2), (2, 3), (3, 1), (1, 3), (3, 0), (0, 3))):
-        obs += sample(Ob('h_diff', {'axs': axs, 'bxs': bxs, 'paths': [['a'], ['a', 'c'], ['a', 'd'], ['b']]}, tiers=('thorough',), timeout=1500),
-                      8, seed=50 + i, ays=[0, 1], bys=[0, 1], axk=[0, 1, 2, 3, 4])
+        obs += sample(Ob('h_diff', {'axs': axs, 'bxs': bxs, 'paths': [['a'], ['a', 'c'], ['a', 'd'], ['b']]}, tiers=('thorough',), timeout=600),
+                      4, seed=50 + i, ays=[0, 1], bys=[0, 1], axk=[0, 1, 2, 3, 4])
     obs.append(Ob('h_diff_boolint', {}, expect='counterexample', finding='F7', timeout=60))
     combos = [('annotations', 'annotations', True, 'kopf.zalando.org'), ('annotations', 'annotations', False, 'my.op.io'),
               ('status', 'status', True, 'kopf.zalando.org'), ('smart', 'multi', True, 'kopf.zalando.org'),
